@@ -87,6 +87,12 @@ class SymIO:
 
     def write(self, data) -> int:
         self._chk()
+        if type(data).__name__ in ("OpaquePayload", "Blob"):
+            # an opaque payload of symbolic length written to a scratch buffer (the
+            # library serialises a block to memory to validate it): the buffer's
+            # content is not inspected afterwards, only the fact that writing succeeded
+            self._opaque = True
+            return data.n
         items = items_of(data)
         if self._pos > len(self._items):
             self._items.extend([0] * (self._pos - len(self._items)))
@@ -126,6 +132,8 @@ class SymIO:
 
     def getvalue(self):
         self._chk()
+        if getattr(self, "_opaque", False):
+            raise Unsupported("getvalue() of a scratch buffer that received an opaque payload")
         return mkbytes(self._items)
 
     def getbuffer(self):
